@@ -97,7 +97,44 @@ CONJUNCTION = Inst(combinator_matchers.Conjunction, _operands=OPERANDS, _model_f
 DISJUNCTION = Inst(combinator_matchers.Disjunction, _operands=OPERANDS, _model_freezer=Iface(FreezerI),
                    _structure_renderer=Any_)
 
-M.contract(P_COMBI + ':Negation.matches_w_trace', props=('C06', 'C05'),
+_REPLAY_COMBINATORS = '''\
+# Native search: the real combinators over scripted operands, every vector of operand values up to length 4.
+import itertools, warnings; warnings.simplefilter('ignore')
+from exactly_lib.impls.types.matcher.impls import combinator_matchers as cm
+from exactly_lib.impls.types.matcher.impls.constant import MatcherWithConstantResult
+from exactly_lib.type_val_prims.description.trace_building import TraceBuilder
+
+class Operand(MatcherWithConstantResult):
+    def __init__(self, idx, value, log):
+        super().__init__(value)
+        self.idx, self.value, self.log = idx, value, log
+    def matches_w_trace(self, model):
+        self.log.append((self.idx, model))
+        return TraceBuilder('operand').build_result(self.value)
+
+bad = []
+FROZEN = object()
+for n in range(0, 5):
+    for values in itertools.product((True, False), repeat=n):
+        for cls, expected, stop_at in ((cm.Conjunction, all(values), False), (cm.Disjunction, any(values), True)):
+            log, frozen = [], []
+            def freezer(m):
+                frozen.append(m)
+                return FROZEN
+            r = cls([Operand(i, v, log) for i, v in enumerate(values)], freezer).matches_w_trace('model')
+            upto = values.index(stop_at) + 1 if stop_at in values else n
+            if r.value != expected or log != [(i, FROZEN) for i in range(upto)] or frozen != ['model']:
+                bad.append((cls.__name__, values, r.value, log, frozen))
+for v in (True, False):
+    log = []
+    r = cm.Negation(Operand(0, v, log)).matches_w_trace('model')
+    if r.value != (not v) or log != [(0, 'model')]:
+        bad.append(('Negation', v, r.value, log))
+print('deviations from not/all/any with lazy left-to-right application to the frozen model:', bad[:5])
+sys.exit(1 if bad else 0)
+'''
+
+M.contract(P_COMBI + ':Negation.matches_w_trace', props=('C06', 'C05'), replay=lambda model, rf: _REPLAY_COMBINATORS,
            params=dict(self=NEGATION, model=Any_), setup=_monitor(with_freezer=False),
            ensures={
                'value-is-not-of-the-operand': lambda self, result: result.value == (not self._negated.D()),
@@ -105,6 +142,7 @@ M.contract(P_COMBI + ':Negation.matches_w_trace', props=('C06', 'C05'),
            }, raises_only=())
 
 M.contract(P_COMBI + ':Conjunction.matches_w_trace', props=('C06', 'C05'),
+           replay=lambda model, rf: _REPLAY_COMBINATORS,
            params=dict(self=CONJUNCTION, model=Any_), setup=_monitor(with_freezer=True),
            ensures={
                'value-is-all-of-the-operands': lambda self, result:
@@ -126,6 +164,7 @@ M.loop(P_COMBI + ':Conjunction.matches_w_trace', 0,
        modifies={'operand': 'local', 'result': 'local', 'ghost:last_applied_index': Int})
 
 M.contract(P_COMBI + ':Disjunction.matches_w_trace', props=('C06', 'C05'),
+           replay=lambda model, rf: _REPLAY_COMBINATORS,
            params=dict(self=DISJUNCTION, model=Any_), setup=_monitor(with_freezer=True),
            ensures={
                'value-is-any-of-the-operands': lambda self, result:
@@ -580,6 +619,9 @@ def _grammar_tables(ctx):
         ob(host, 'no primitive is named like an operator or a parenthesis',
            lambda: not ({nav.name for nav in g.primitives__seq} | set(g.primitives))
                        & {OR, AND, NOT, SEQUENCE, '(', ')'})
+        ob(host, 'an operator or parenthesis in operand position is not a symbol name or reference (so: a syntax error)',
+           lambda: all((not symbol_syntax.is_symbol_name(t)) and symbol_syntax.parse_symbol_reference__from_str(t) is None
+                       for t in [OR, AND, NOT, SEQUENCE, '(', ')']))
         for b in (False, True):
             def inner(b=b):
                 ps = mod.parsers(b)
@@ -1347,10 +1389,10 @@ def _run_standin(ctx, host, plans):
 def _plans(host_name, tier):
     if tier != 'thorough':
         return [_Plan(2, 2, 1)]
-    plans = [_Plan(2, 2, 2, pairs=True, vectors='four'), _Plan(2, 3, 1, pairs=True)]
-    if host_name in ('integer-matcher', 'string-matcher'):
-        # (the descent is the same generic code for every host type; the deepest bound only for two of them)
-        plans.append(_Plan(3, 2, 0, doubled_spaces=False))
+    plans = [_Plan(2, 2, 2, pairs=True, vectors='four'), _Plan(2, 3, 0, pairs=True)]
+    if host_name == 'integer-matcher':
+        # (the descent is the same generic code for every host type: the deepest bound only for one of them)
+        plans.append(_Plan(3, 2, 0, doubled_spaces=False, damaged=False))
     return plans
 
 
